@@ -394,6 +394,27 @@ impl Pager {
         Ok(PageId::new(candidate))
     }
 
+    /// Allocates `count` consecutive pages past the current end of the page space and returns the
+    /// first one. Nothing at or beyond `next_page_id` is ever allocated, so the run is free.
+    pub fn allocate_run(&mut self, count: u64) -> Result<PageId> {
+        let first = self.meta.next_page_id;
+        let end = first.saturating_add(count);
+        if end > BITMAP_BITS {
+            return Err(Error::PageIdOutOfRange(first));
+        }
+        let mut id = first;
+        while id < end {
+            self.ensure_allocated(PageId::new(id))?;
+            id += 1;
+        }
+        Ok(PageId::new(first))
+    }
+
+    /// Whether `page_id` is a data page currently marked allocated.
+    pub fn is_page_allocated(&self, page_id: PageId) -> bool {
+        self.validate_data_page_id(page_id).is_ok() && self.bitmap.is_allocated(page_id)
+    }
+
     pub fn free_page(&mut self, page_id: PageId) -> Result<()> {
         self.validate_data_page_id(page_id)?;
         if !self.bitmap.is_allocated(page_id) {
